@@ -30,3 +30,25 @@ void w_selfcheck_real_updates(unsigned long *p)
 	uatomic_or(p, 2);
 	uatomic_and(p, ~2UL);
 }
+
+#include <errno.h>
+#include <unistd.h>
+
+/* errno consulted on the success path of the call it belongs to (detector: sa/narrow.py errno_misuse) */
+int w_selfcheck_errno_on_success(int fd)
+{
+	if (!close(fd)) {
+		if (errno == EINTR)
+			return 1;
+	}
+	return 0;
+}
+
+int w_selfcheck_errno_on_failure(int fd)
+{
+	if (close(fd)) {
+		if (errno == EINTR)
+			return 1;
+	}
+	return 0;
+}
